@@ -302,3 +302,61 @@ for _c in CONTRACTS:
     _m = _re.search(r'\._testValue\[(\d)\]$|__add__\[(\d)\]$|_derive\[(\d)\]$', _c.id)
     if _m:
         _c.bounded = 'constraint sets of exactly %s operands' % [g for g in _m.groups() if g is not None][0]
+
+
+# ---- WITH COMPONENTS: presence constraints see an absent member, value constraints apply to a present one only ------------------
+def _wc_value(ex, env):
+    def get(ex2, self, field, default=None):
+        if not ex2.choose(Bool('member.stored'), 'member-stored'):
+            return None
+        # what a read leaves in an unset slot is stored but is not a value
+        return Obj('Asn1Item', {'isValue': ex2.choose(Bool('member.isValue'), 'member-is-a-value')}, name='member')
+    return Obj('dict', {}, {'get': get}, name='value')
+
+
+_WC_KINDS = (('ComponentPresentConstraint', ('AbstractConstraint',)), ('ComponentAbsentConstraint', ('AbstractConstraint',)),
+             ('ConstraintsUnion', ('AbstractConstraintSet', 'AbstractConstraint')), ('ValueRangeConstraint', ('AbstractConstraint',)))
+
+
+def _wc_self(ex, env):
+    kind = 3
+    for k in range(3):
+        if ex.choose(Bool('constraint.kind%d' % k), 'kind-%s' % _WC_KINDS[k][0]):
+            kind = k
+            break
+    cls, bases = _WC_KINDS[kind]
+    log = env['log']
+    log.fields['isValueConstraint'] = kind == 3
+
+    def call(ex2, self_, v, idx=None):
+        log.fields['called'] = True
+        log.fields['arg'] = v
+        if not ex2.choose(Bool('constraint.admits'), 'admits'):
+            raise _Raise(ExcV('ValueConstraintError'))
+        return None
+    c = Obj(cls, {}, {'__call__': call, '__isinstance__': lambda ex2, self_, nm: nm == cls or nm in bases}, name='constraint')
+    return Obj('WithComponentsConstraint', {'_values': Tup([Tup(['field', c])])}, name='self')
+
+
+_present = 'member_stored and member_isValue'
+WITH_COMPONENTS = Contract(
+    id='type.constraint::WithComponentsConstraint._testValue[one-entry]', file=F, qual='WithComponentsConstraint._testValue',
+    properties=P + ['C08'],
+    params=dict(log=PDerived(lambda ex, env: Obj('log', {'called': False, 'arg': None, 'isValueConstraint': None}, name='log')),
+                value=PDerived(_wc_value), self=PDerived(_wc_self), idx=PConst(None)),
+    globals={'member_stored': Bool('member.stored'), 'member_isValue': Bool('member.isValue'), 'admits': Bool('constraint.admits'),
+             'ComponentPresentConstraint': _ClassV('ComponentPresentConstraint'),
+             'ComponentAbsentConstraint': _ClassV('ComponentAbsentConstraint'),
+             'AbstractConstraintSet': _ClassV('AbstractConstraintSet')},
+    ensures=[
+        # X.680 51.8: a value constraint on a component applies when the component is present; it is never shown "no value"
+        ('value-constraints-see-present-members-only', '(log.isValueConstraint and not (%s)) ==> not log.called' % _present),
+        ('otherwise-the-constraint-decides', '(not log.isValueConstraint or (%s)) ==> (log.called and admits)' % _present),
+        # presence constraints (and sets, which may hold them) see an absent member -- also a placeholder -- as None
+        ('absent-is-none', '(log.called and not (%s)) ==> log.arg is None' % _present),
+        ('present-is-the-member', '(log.called and (%s)) ==> log.arg is not None' % _present)],
+    raises={'ValueConstraintError': '(not log.isValueConstraint or (%s)) and not admits' % _present},
+    note='the member constraint is an assumed model (admits or raises ValueConstraintError); one (field, constraint) entry: '
+         'the loop over the entries repeats this step')
+WITH_COMPONENTS.bounded = 'one (field, constraint) entry per constraint (the loop over entries is unrolled)'
+CONTRACTS.append(WITH_COMPONENTS)
